@@ -13,7 +13,9 @@ NAN, INF = float("nan"), float("inf")
 ELEMS = [0, 255, 128, 256, -1, 1000, 0.0, 0.5, 1.0, 1.5, 127.6, 255.0, 300.0, NAN, INF, -INF, -0.5, 1e308, "128", "50%", "abc", "",
          " ", "1e3", "-5", "999%", "inf%", "1e999%", "-inf%", "nan%", "9" * 400 + "%", "100.3%", "-0.3%", None, True, False]
 TOKENS = ["rgb(", "rgba(", "hsl(", "hsla(", ")", ",", "/", "%", "-", "+", ".", "e", "1", "255", "0.5", "1e309", "deg", "var(--x)",
-          "inherit", "transparent", "currentcolor", "٣", " ", "#", "(", "fff", "red", "nan", "inf", "²", "\x00", "inf%", "1e999%", "9" * 330, "100.3%", "-0.3%", "100.2%", "255.4", "360.0001", "1.001"]
+          "inherit", "transparent", "currentcolor", "٣", " ", "#", "(", "fff", "red", "nan", "inf", "²", "\x00", "inf%", "1e999%", "9" * 330, "100.3%", "-0.3%", "100.2%", "255.4", "360.0001", "1.001",
+          # every kind of white space (a value may be broken over lines), and text that means something to a formatting routine
+          "\n", "\r\n", "\t", "\f", "\v", "{", "}", "{}", "{0}", "{1}", "{color}", "{0.hex}", "${fg}", "%s", "%(x)s", "%d", "%", "\\", "\\n"]
 VALID_CSS = ["#ff0000", "#abc", "rgb(1, 2, 3)", "rgba(1, 2, 3, 0.5)", "hsl(120, 50%, 50%)", "hsla(120, 50%, 50%, 0.3)", "red",
              "rgb(10%, 20%, 30%)", "255, 0, 0", "(1,2,3)"]
 
@@ -83,6 +85,10 @@ def inputs(t, rnd):
             vals.append("#" + body)
             if rnd.random() < 0.2:
                 vals.append(body)
+    # strings that reach the "unrecognised" fallback (no comma, no blank, no known prefix) with replacement fields in them
+    for body in ("{}", "{0}", "{1}", "{color}", "{0.hex}", "{!r}", "{:>10}", "${fg}", "@{brand}", "%s", "%(name)s", "%d%%", "{{x}}", "{", "}"):
+        for pre, post in (("", ""), ("colour-", "-dark"), ("var(--", ")"), ("x", "y")):
+            vals.append(pre + body + post)
     vals += ["#-1-2-3", "#+1+2+3", "# 1 2 3", "#1_2_3_", "#0x0x0x", "#-f-f-f", "#- - - ", "#١٢٣", "#１２３", "#ⅠⅡⅢ"]
     # keywords spelled with characters that only SOME case mappings fold to ASCII (long s, ligatures, Kelvin sign, dotless i ...)
     folds = [("s", "\u017f"), ("fi", "\ufb01"), ("fl", "\ufb02"), ("ff", "\ufb00"), ("st", "\ufb06"), ("k", "\u212a"), ("i", "\u0131"), ("I", "\u0130"),
@@ -97,7 +103,8 @@ def inputs(t, rnd):
     # complete, empty, unclosed and with stray blanks
     fnames = ["rgb", "rgba", "hsl", "hsla", "var", "url", "calc", "env", "attr", "color", "lab", "lch", "hwb", "oklch", "color-mix",
               "linear-gradient", "min", "clamp", "-webkit-gradient", "light-dark"]
-    bodies = ["--x", "--x, #fff", "--Brand, #fff", "", " ", " --x ", "1, 2, 3", "1 2 3", "x.png", "\"a\"", "--x, var(--y)", "in srgb, red, blue",
+    bodies = ["10,\n20, 30", "10,\r\n 20,\t30", "\n1, 2, 3\n", "120,\n50%,\n50%", "{}", "{0}, {1}, {2}",
+              "--x", "--x, #fff", "--Brand, #fff", "", " ", " --x ", "1, 2, 3", "1 2 3", "x.png", "\"a\"", "--x, var(--y)", "in srgb, red, blue",
               "120, 50%, 50%", "1, 2, 3, 0.5", "--"]
     for fnm in fnames:
         for cv in (fnm, fnm.upper(), fnm.capitalize(), fnm[0] + fnm[1:].upper(), "".join(ch.upper() if k_ % 2 else ch for k_, ch in enumerate(fnm))):
